@@ -21,6 +21,9 @@ impl<'p, 'ast> Parser<'_, 'p, 'ast> {
 
         enum State<'p, 'ast> {
             Parsed(ast::Expr<'p, 'ast>),
+            // An expression that extends as far to the right as possible
+            // (`local`, `if`, `function`, `assert`, `import` or `error`)
+            ParsedGreedy(ast::Expr<'p, 'ast>),
             Binary(BinOpKind),
             BinaryRhs(BinOpKind, ast::Expr<'p, 'ast>),
             Unary,
@@ -140,6 +143,35 @@ impl<'p, 'ast> Parser<'_, 'p, 'ast> {
                             kind: ast::ExprKind::Paren(self.ast_arena.alloc(expr)),
                             span: self.span_mgr.make_surrounding_span(start_span, end_span),
                         });
+                    }
+                },
+                State::ParsedGreedy(expr) => match stack.pop() {
+                    // Its last sub-expression has already consumed everything
+                    // that can continue an expression, so no operator or suffix
+                    // can be applied to the whole expression.
+                    None => return Ok(expr),
+                    Some(StackItem::BinaryLhs(_) | StackItem::Suffix) => {
+                        state = State::ParsedGreedy(expr);
+                    }
+                    Some(StackItem::BinaryRhs(_, lhs, op)) => {
+                        let rhs = self.ast_arena.alloc(expr);
+                        let span = self.span_mgr.make_surrounding_span(lhs.span, rhs.span);
+                        state = State::ParsedGreedy(ast::Expr {
+                            kind: ast::ExprKind::Binary(lhs, op, rhs),
+                            span,
+                        });
+                    }
+                    Some(StackItem::Unary(op, op_span)) => {
+                        let rhs = self.ast_arena.alloc(expr);
+                        let span = self.span_mgr.make_surrounding_span(op_span, rhs.span);
+                        state = State::ParsedGreedy(ast::Expr {
+                            kind: ast::ExprKind::Unary(op, rhs),
+                            span,
+                        });
+                    }
+                    Some(item) => {
+                        stack.push(item);
+                        state = State::Parsed(expr);
                     }
                 },
                 State::Binary(kind) => {
@@ -317,7 +349,7 @@ impl<'p, 'ast> Parser<'_, 'p, 'ast> {
                         let span = self
                             .span_mgr
                             .make_surrounding_span(start_span, inner_expr.span);
-                        state = State::Parsed(ast::Expr {
+                        state = State::ParsedGreedy(ast::Expr {
                             kind: ast::ExprKind::Local(binds, inner_expr),
                             span,
                         });
@@ -335,7 +367,7 @@ impl<'p, 'ast> Parser<'_, 'p, 'ast> {
                             if_span,
                             else_body.as_ref().map_or(then_body.span, |e| e.span),
                         );
-                        state = State::Parsed(ast::Expr {
+                        state = State::ParsedGreedy(ast::Expr {
                             kind: ast::ExprKind::If(cond, then_body, else_body),
                             span,
                         });
@@ -345,7 +377,7 @@ impl<'p, 'ast> Parser<'_, 'p, 'ast> {
                         let params = self.ast_arena.alloc_slice(&params);
                         let body = self.ast_arena.alloc(self.parse_expr()?);
                         let span = self.span_mgr.make_surrounding_span(start_span, body.span);
-                        state = State::Parsed(ast::Expr {
+                        state = State::ParsedGreedy(ast::Expr {
                             kind: ast::ExprKind::Func(params, body),
                             span,
                         });
@@ -355,7 +387,7 @@ impl<'p, 'ast> Parser<'_, 'p, 'ast> {
                         let span = self
                             .span_mgr
                             .make_surrounding_span(start_span, inner_expr.span);
-                        state = State::Parsed(ast::Expr {
+                        state = State::ParsedGreedy(ast::Expr {
                             kind: ast::ExprKind::Assert(self.ast_arena.alloc(assert), inner_expr),
                             span,
                         });
@@ -364,7 +396,7 @@ impl<'p, 'ast> Parser<'_, 'p, 'ast> {
                         let span = self
                             .span_mgr
                             .make_surrounding_span(start_span, path_expr.span);
-                        state = State::Parsed(ast::Expr {
+                        state = State::ParsedGreedy(ast::Expr {
                             kind: ast::ExprKind::Import(path_expr),
                             span,
                         });
@@ -373,7 +405,7 @@ impl<'p, 'ast> Parser<'_, 'p, 'ast> {
                         let span = self
                             .span_mgr
                             .make_surrounding_span(start_span, path_expr.span);
-                        state = State::Parsed(ast::Expr {
+                        state = State::ParsedGreedy(ast::Expr {
                             kind: ast::ExprKind::ImportStr(path_expr),
                             span,
                         });
@@ -382,7 +414,7 @@ impl<'p, 'ast> Parser<'_, 'p, 'ast> {
                         let span = self
                             .span_mgr
                             .make_surrounding_span(start_span, path_expr.span);
-                        state = State::Parsed(ast::Expr {
+                        state = State::ParsedGreedy(ast::Expr {
                             kind: ast::ExprKind::ImportBin(path_expr),
                             span,
                         });
@@ -391,7 +423,7 @@ impl<'p, 'ast> Parser<'_, 'p, 'ast> {
                         let span = self
                             .span_mgr
                             .make_surrounding_span(start_span, msg_expr.span);
-                        state = State::Parsed(ast::Expr {
+                        state = State::ParsedGreedy(ast::Expr {
                             kind: ast::ExprKind::Error(msg_expr),
                             span,
                         });
